@@ -226,6 +226,7 @@ def units_rules(repo, rep):
 
 def run(repo, rep):
     alg.reset()
+    common.typecheck_rules(repo, rep)
     common.state_rule(repo, rep, [('geodepy.convert', 'geo2grid')])
     common.ellipsoid_rules(repo, rep, projections=True)
     rep.trust('sv/alg.py exact normal forms; generators (free symbols, sqrt/atan/log/... atoms with different arguments) are algebraically independent modulo the rewrite rules applied')
